@@ -136,6 +136,7 @@ type Family struct {
 	Bases    [][]Op
 	AdvBases []int         // indices of bases that are also enumerated with the clock advanced
 	Command  func(g *Gen, now int64) []string
+	Scripts  [][][]string // scripted histories run first (embedded caller, no clock advance)
 }
 
 func familySeq(f Family, g *Gen, id string, n int) Seq {
@@ -200,6 +201,15 @@ func RunFamily(f Family, w *bufio.Writer, seed int64, tier string, replay string
 		}
 		return r.RunSeq(rp.Seq)
 	}
+	for si, sc := range f.Scripts {
+		var ops []Op
+		for _, c := range sc {
+			ops = append(ops, Op{Conn: -1, Cmd: HexCmd(c)})
+		}
+		if err := r.RunSeq(Seq{ID: fmt.Sprintf("s%d", si), Ops: ops}); err != nil {
+			return err
+		}
+	}
 	id := 0
 	for bi, base := range f.Bases {
 		advs := []int64{0}
@@ -237,7 +247,7 @@ func RunFamily(f Family, w *bufio.Writer, seed int64, tier string, replay string
 // ListFamily is the list-command suite.
 func ListFamily() Family {
 	return Family{Name: "list", Alphabet: listAlphabet(), Bases: listBases(), AdvBases: []int{2},
-		Command: func(g *Gen, now int64) []string { return g.ListCommand() }}
+		Command: func(g *Gen, now int64) []string { return g.ListCommand() }, Scripts: listScripts()}
 }
 
 // KvFamily is the generic/string suite.
